@@ -31,7 +31,7 @@ Known == {"nl.bsn", "nl.onderwijsnummer", "pl.nip", "pl.regon", "pt.nif", "dk.cv
           "bg.egn", "cu.ni", "cz.rc", "sk.rc", "lt.asmens", "ro.cnp", "kr.rrn", "gr.amka", "is_.kennitala",
           "es.cups", "es.nif", "es.referenciacatastral", "fr.nir", "in_.gstin", "si.emso", "tn.mf", "tw.ubn", "ua.rntrc", "us.ptin",
           "bg.vat", "cz.dic", "sk.dph", "ro.cf", "th.tin", "it.codicefiscale", "mu.nid", "eu.at_02", "mx.rfc", "mx.curp",
-          "iso6346", "be.eid", "de.stnr"}
+          "iso6346", "be.eid", "de.stnr", "isan"}
 (* formats with further rules (dates, ranges) that are not transcribed: the checksum is only a NECESSARY condition *)
 Necessary == {"no.fodselsnummer", "fi.hetu", "ch.ssn", "lv.pvn", "pl.pesel", "ee.ik", "at.tin", "dk.cpr", "za.idnr", "se.personnummer", "cz.bankaccount",
               "sg.uen", "ro.onrc", "id.nik", "id.npwp", "cn.ric", "be.nn", "be.bis", "us.ssn", "us.itin", "us.atin", "us.ein", "nz.bankaccount", "my.nric", "mac", "imsi", "cfi", "isil", "at.postleitzahl"}
@@ -165,6 +165,21 @@ NzMod(a) == CASE a \in {"A", "B", "D"} -> <<11, 11>> [] a = "E" -> <<9, 11>> [] 
 NzOk(c) == LET a == NzAlg(c)  w == NzWeights(a)  md == NzMod(a)
            IN Sum(LAMBDA i : LET x == w[i] * D(c[i]) IN IF x > md[1] THEN x % md[1] ELSE x, 16) % md[2] = 0
 TwoCenturyDate(yy, mm, dd) == NRealDate(1900 + yy, mm, dd) \/ NRealDate(2000 + yy, mm, dd)
+
+(* ISO 7064 hybrid system MOD 37,36 as the standard states it: P(1) = 36, S(j) = P(j) mod 37 + a(j), P(j+1) = 2 * (S(j) mod 36, 0 read as 36); valid iff S(n) mod 36 = 1 *)
+Iso3736Ok(c) == LET P == FoldLeft(LAMBDA q, ch : LET sj == ((q % 37) + EicVal(ch)) % 36 IN (IF sj = 0 THEN 36 ELSE sj) * 2, 36, SubSeq(c, 1, Len(c) - 1))
+                IN ((P % 37) + EicVal(c[Len(c)])) % 36 = 1
+IsHexU(ch) == (ch \in 48..57) \/ (ch \in 65..70)
+IsAlnumU(ch) == (ch \in 48..57) \/ (ch \in 65..90)
+(* ISAN: root (12 hex) episode (4 hex) [check] [version (8 hex) [check]]; judged on the cleaned form with its check characters *)
+IsanOk(c) == LET n == Len(c)  Hexs(a, b) == \A i \in a..b : IsHexU(c[i])
+             IN CASE n = 16 -> Hexs(1, 16)
+                  [] n = 17 -> Hexs(1, 16) /\ IsAlnumU(c[17]) /\ Iso3736Ok(c)
+                  [] n = 24 -> Hexs(1, 24)
+                  [] n = 25 -> Hexs(1, 24) /\ IsAlnumU(c[25]) /\ Iso3736Ok(c)
+                  [] n = 26 -> /\ Hexs(1, 16) /\ Hexs(18, 25) /\ IsAlnumU(c[17]) /\ IsAlnumU(c[26])
+                               /\ Iso3736Ok(SubSeq(c, 1, 17)) /\ Iso3736Ok(SubSeq(c, 1, 16) \o SubSeq(c, 18, 26))
+                  [] OTHER -> FALSE
 
 AcceptN(m, c) ==
   CASE m = "nl.bsn" -> Len(c) = 9 /\ IsDigits(c) /\ ~AllZero(c) /\ (W(c, <<9, 8, 7, 6, 5, 4, 3, 2>>) + 11 * 9 - D(c[9])) % 11 = 0
@@ -546,6 +561,7 @@ AcceptN(m, c) ==
     [] m = "iso6346" -> /\ Len(c) = 11 /\ (\A i \in 1..3 : (c[i] \in 48..57) \/ (c[i] \in 65..90)) /\ c[4] \in {85, 74, 90, 82}
                         /\ IsDigits(SubSeq(c, 5, 11))
                         /\ (Sum(LAMBDA i : IsoVal(c[i]) * (2 ^ (i - 1)), 10) % 11) % 10 = D(c[11])
+    [] m = "isan" -> IsanOk(c)
     [] m = "be.eid" -> /\ Len(c) = 12 /\ IsDigits(c) /\ ~AllZero(c)
                        /\ LET r == ModOf(SubSeq(c, 1, 10), 97) IN NumOf(c, 11, 12) = (IF r = 0 THEN 97 ELSE r)
     [] m = "de.stnr" -> /\ IsDigits(c) /\ Len(c) \in {10, 11, 13}
